@@ -66,6 +66,8 @@ JudgeLocParse(e, o) ==
         IF r.zone = "reject" THEN Bad("loc-accepts-ill-formed", <<"C03">>, o)
         ELSE IF r.zone \in {"accept", "either", "other"} /\ e.st # r.val THEN Bad("loc-value-" \o r.zone, <<"C03">>, o)
         ELSE IF ~LocValueOK(e.st) THEN Bad("loc-value-ill-formed", <<"C04", "C03">>, o)
+        (* a library that supports other extensions prints them too: text not judged *)
+        ELSE IF r.zone = "other" THEN Good(o)
         ELSE IF ~TextOK(e.st, e.ser) THEN Bad("loc-text", <<"C04", "C05">>, o)
         ELSE IF Len(e.ser) > Len(e.in) THEN Bad("loc-text-longer-than-input", <<"C04">>, o)
         ELSE Good(o)
